@@ -57,10 +57,12 @@ package fastforward
 //@   loop 0:
 //@     invariant f != nil && qCtx != nil && 0 <= i && i <= concurrent && concurrent == clamp13(f.args.Concurrent) && len(us) > 0 && 0 <= r && r < len(us) && queryPayload != nil && resChan != nil && done != nil
 //@     invariant forall k int :: 0 <= k && k < len(us) ==> us[k] != nil
+//@     entry i == 0
 //@     each iter_calls(copyPayload) == 1 && iter_arg(copyPayload, 0, 0) == queryPayload && iter_calls(worker) == 1
 //@     each u == us[(r + (i - 1)) % len(us)]
 //@     decreases concurrent - i
 //@   loop 1:
+//@     entry i == 0
 //@     invariant f != nil && ctx != nil && 0 <= i && i <= concurrent && concurrent == clamp13(f.args.Concurrent) && resChan != nil
 //@     each iter_calls(chanRecv) == 1 && iter_arg(chanRecv, 0, 0) == resChan && (iter_ret(chanRecv, 0, 0).err != nil || ((i - 1) < concurrent - 1 && !goodRcode(iter_ret(chanRecv, 0, 0).r)))
 //@     decreases concurrent - i
@@ -74,7 +76,7 @@ package fastforward
 //@   requires f != nil && u != nil && qc != nil && resChan != nil && done != nil
 //@   modifies *
 //@   ensures calls(upstreamExchange) == 1 && arg(upstreamExchange, 0, 0) == u && arg(upstreamExchange, 0, 2) == old(*qc) && arg(upstreamExchange, 0, 1) == ret(ctxWithTimeout, 0, 0)
-//@   ensures calls(ctxWithTimeout) == 1 && arg(ctxWithTimeout, 0, 1) == 5000000000 && callpos(ctxBackground, 0) < callpos(ctxWithTimeout, 0)
+//@   ensures calls(ctxWithTimeout) == 1 && arg(ctxWithTimeout, 0, 1) == 5000000000 && calls(ctxBackground) == 1 && arg(ctxWithTimeout, 0, 0) == ret(ctxBackground, 0)
 //@   ensures calls(chanSend) <= 1 && (calls(chanSend) == 0 ==> calls(chanRecv) == 1 && arg(chanRecv, 0, 0) == done)
 //@   ensures calls(chanSend) == 1 ==> arg(chanSend, 0, 0) == resChan && (ret(upstreamExchange, 0, 1) != nil ==> arg(chanSend, 0, 1).r == nil && arg(chanSend, 0, 1).err != nil)
 //@   ensures calls(chanSend) == 1 && calls(msgUnpack) == 1 && ret(msgUnpack, 0) != nil ==> arg(chanSend, 0, 1).r == nil && arg(chanSend, 0, 1).err != nil
